@@ -6,6 +6,7 @@ the CAS-list invariant carries over (any number of threads, every schedule).
 import TbbVerif.Proofs.C12.Walk
 import TbbVerif.Proofs.C12.CasListFacts
 import TbbVerif.Proofs.C12.Bits
+import TbbVerif.Proofs.C12.Sizing
 
 namespace TbbVerif.C12
 namespace SplitOrder
@@ -21,8 +22,6 @@ theorem dummyKey_zero : dummyKey 0 = 0 := by simp [dummyKey, rev_zero]
 /-- every initialised bucket points at a node of the list that carries the bucket's dummy key -/
 def TableOk (L : LSt) (slot : Nat → Option Node) : Prop :=
   ∀ b d, slot b = some d → d ∈ L.chain ∧ L.key d = ⟨dummyKey b, 0⟩
-
-def BcOk (bc : Nat) : Prop := ∃ k, k ≤ 63 ∧ bc = 2 ^ k
 
 /-- facts about the operation in progress that hold from its first step on -/
 def OpOk (L : LSt) (th : Th) : Prop :=
@@ -62,7 +61,10 @@ def TInvSO (cfg : Cfg) (L : LSt) (slot : Nat → Option Node) (t : Tid) (th : Th
   | .cas => InsInv (R cfg) L t th.k th.prev th.new ∧ CurrOk (R cfg) L th.k th.curr ∧ L.next th.new = th.curr
   | .szAdd => True
   | .ldBc2 => True
-  | .casBc => th.cur < 2 ^ 63 ∧ BcOk th.cur
+  | .casBc => BcOk th.nec
+  | .rhLd => True
+  | .rvLd => True
+  | .rvCas => BcOk th.nec
   | .fwalk => FInv L th.k th.prev th.must
   | .twalk => TrInv L th.prev th.seen th.snap
 
@@ -198,6 +200,9 @@ theorem tinvso_stable {cfg : Cfg} {L : LSt} {slot slot' : Nat → Option Node} {
   · exact insinv_stable g ha hut h
   · exact ⟨insinv_stable g ha hut h.1, currok_stable g ha h.2⟩
   · exact ⟨insinv_stable g ha hut h.1, currok_stable g ha h.2.1, private_next_stable g ha hut h.1 h.2.2⟩
+  · trivial
+  · trivial
+  · exact h
   · trivial
   · trivial
   · exact h
